@@ -15,7 +15,7 @@ def base_from_log(log):
 
 
 def run_config(report, module, observer=None, overrides=None, judge_generic=True, spec_only=False,
-               tag='', wd=None, workers=16):
+               tag='', wd=None, workers=16, report_kinds=None):
     """TLC BFS over `module` (exhaustive within its MaxCalls), dump every state, replay all."""
     own = wd is None
     wd = wd or tlc.workdir()
@@ -27,6 +27,7 @@ def run_config(report, module, observer=None, overrides=None, judge_generic=True
         calls, heap, names = base_from_log(r.log)
         ctx = progjudge.Ctx(calls, heap, names, common.rng(module + tag), observer=observer,
                             judge_generic=judge_generic)
+        ctx.report_kinds = report_kinds
         common.replay_dump(r.dump, progjudge.judge_state, ctx, report, workers=workers)
         return r
     finally:
